@@ -158,6 +158,9 @@ def choose_program(rng, in_types, dwarf, file_hint=None, bombs=True):
             if c:
                 return rng.choice(c), {"bomb": False, "out": ["X"], "src": "corpus"}
     else:
+        typed = [t for t, ty in gen.SEED_PROGRAMS_TYPED if list(ty) == list(in_types)]
+        if typed and k < 0.35:
+            return rng.choice(typed), {"bomb": False, "out": ["X"], "src": "typed-seed"}
         if not in_types and k < 0.25:
             return rng.choice(gen.SEED_PROGRAMS_CORE), {"bomb": False, "out": ["X"], "src": "seed"}
         if not in_types and k < 0.35:
@@ -326,9 +329,21 @@ def gen_history(rng, profile, faults=False, sweep=False, hostile=False, reuse=Fa
             types = [] if k < 0.45 else [rng.choice("IS") for _ in range(rng.randint(1, 3))]
             ins = []
             mixed = rng.random() < 0.3
-            for _ in range(rng.choice([1, 1, 2, 3] if mixed else [1, 1, 2])):
+            pooled = (not mixed) and types and rng.random() < 0.4
+            pool = {}
+            for _ in range(rng.choice([1, 1, 2, 3] if mixed else [2, 3, 4] if pooled else [1, 1, 2])):
                 i = b.i()
                 its = list(types)
+                if pooled:
+                    # slots drawn from a small per-slot pool: consecutive
+                    # executions see the same value in some slot again
+                    items = []
+                    for j, t in enumerate(its):
+                        pl = pool.setdefault(j, [lit_item(rng, t) for _ in range(2)])
+                        items.append(rng.choice(pl))
+                    b.setup.append(P.step(0, "MKIN", i, *items))
+                    ins.append(i)
+                    continue
                 if mixed and its and ins:
                     # same query, input stacks of different shape: one slot of
                     # another type, or one slot more or less
